@@ -46,6 +46,16 @@ def peak_cases(rng, tier):
     one('peak-dd-then-6node', t, ncell=3, power_order=1, zero_cells=(2,))
     one('peak-lowfi', bundle_type(3, use_low_fidelity_model=True),
         pins=False)
+    # a maximum approached slowly: the power of the top cell ramps down to
+    # zero at the outlet, so the last planes differ by less than a
+    # millikelvin (a peak is the maximum, however small the last increments)
+    one('peak-slow-approach', bundle_type(2), ncell=2, power_order=1,
+        gap_model='none', setup={'axial_mesh_size': 0.001})
+    for p_ in out[-1][1]['power'].values():
+        for comp in ('pins', 'duct', 'cool'):
+            if p_.get(comp) is not None:
+                p_[comp][-1] = [[abs(co[0]), -2.0 * abs(co[0])]
+                                for co in p_[comp][-1]]
     # the same kinds of problem written in other unit systems: the tables
     # print temperatures and heights in the requested units
     from harness import unitsys
